@@ -22,7 +22,7 @@ func init() { register(c05{}) }
 func (c05) Meta() core.Meta {
 	return core.Meta{
 		ID: "C05", Level: "exploration",
-		Rule:        "case i = f(seed,i): five strings over the atoms & < > \" ' &amp; &lt; &#x41; &#65; ]]> <![CDATA[ -- </r> letters blanks tab newline non-ASCII (0..7 atoms) placed in an attribute, a simple element, text beside an attribute, an attribute beside text, and text beside a child element, for Map and MapSeq. Per case: a random prefix of escaping-switch calls with the hooked option state checked after each (never both on); clause 1 (encoder-side escaping, validity on/off): all four encoders' output accepted by the std tokenizer and every value read back exactly (element text up to trimming); clause 2 (decoder-side escaping): a document rendered from the strings is decoded and re-encoded by both codecs and the values the std tokenizer reads from the output equal those it reads from the document, Map values equal the reference escape; clause 3 (escaping off, validity on; CustomDecoder non-strict in 1/4 of the cases as ambient noise): error or tokenizer-accepted output, never nil error with rejected output. Non-trivial: at least one string contains a special character; distinct by hash(strings).",
+		Rule:        "case i = f(seed,i): five strings over the atoms & < > \" ' &amp; &lt; &#x41; &#65; ]]> <![CDATA[ -- </r> letters blanks tab newline non-ASCII (0..7 atoms) placed in an attribute, a simple element, text beside an attribute, an attribute beside text, and text beside a child element, for Map and MapSeq (clause 2 also puts them in xmlns / xmlns:ns declarations). Per case: a random prefix of escaping-switch calls with the hooked option state checked after each (never both on); clause 1 (encoder-side escaping, validity on/off): all four encoders' output accepted by the std tokenizer and every value read back exactly (element text up to trimming); clause 2 (decoder-side escaping): a document rendered from the strings is decoded and re-encoded by both codecs and the values the std tokenizer reads from the output equal those it reads from the document, Map values equal the reference escape; clause 3 (escaping off, validity on; CustomDecoder strict/non-strict with or without an extra entity map in 1/4 of the cases as ambient noise; strings include &nbsp; and &foo;): error or tokenizer-accepted output, never nil error with rejected output. Non-trivial: at least one string contains a special character; distinct by hash(strings).",
 		Assumptions: []string{"'well formed' = accepted by the std strict tokenizer (the notion the validity switch documents)"},
 		Anchors:     []string{"escapeChars", "XMLEscapeChars", "XMLEscapeCharsDecoder", "XmlCheckIsValid", "Map.Xml", "Map.XmlIndent", "MapSeq.Xml", "MapSeq.XmlIndent", "mapToXmlSeqIndent", "marshalMapToXmlIndent"},
 		Floors:      map[string]int64{"clause1:values-read-back": 50000, "clause2:docs": 3000, "clause3:error-returned": 1000, "clause3:valid-output": 1000, "switch-calls-checked": 10000, "strings:pre-escaped-lookalike": 1000, "strings:cdata-markers": 1000},
@@ -39,7 +39,7 @@ func (c05) Cases(tier string, race bool) int {
 	return 30000
 }
 
-var c05atoms = []string{"&", "<", ">", `"`, "'", "&amp;", "&lt;", "&#x41;", "&#65;", "]]>", "<![CDATA[", "--", "</r>", "a", "B", " ", "\t", "\n", "é", "世", "1", ";", "&amp;amp;", "&quot;"}
+var c05atoms = []string{"&", "<", ">", `"`, "'", "&amp;", "&lt;", "&#x41;", "&#65;", "]]>", "<![CDATA[", "--", "</r>", "a", "B", " ", "\t", "\n", "é", "世", "1", ";", "&amp;amp;", "&quot;", "&nbsp;", "&foo;"}
 
 var c05benign = []string{"&amp;", "&lt;", "&#x41;", "&#65;", "a", "B", " ", "é", "世", "1", ";", "&amp;amp;", "&quot;", "--"}
 
@@ -234,7 +234,7 @@ func (c05) Case(c *core.Ctx) {
 	if r.Intn(2) == 0 {
 		mxj.XMLEscapeCharsDecoder(true)
 		checkSwitches(c, "XMLEscapeCharsDecoder(true)")
-		root := &xt.Node{Local: "r", Attrs: []xt.Attr{{Local: "a", Val: ss[0]}, {Prefix: "ns", Local: "p", Val: ss[3]}, {Prefix: "xmlns", Local: "ns", Val: "urn:x"}}}
+		root := &xt.Node{Local: "r", Attrs: []xt.Attr{{Local: "a", Val: ss[0]}, {Prefix: "ns", Local: "p", Val: ss[3]}, {Prefix: "xmlns", Local: "ns", Val: "urn:x" + ss[1]}, {Local: "xmlns", Val: "urn:d" + ss[4]}}}
 		add := func(n *xt.Node) { root.Items = append(root.Items, xt.Item{Kind: xt.KElem, El: n}) }
 		e := &xt.Node{Local: "e"}
 		if ss[1] != "" {
@@ -298,8 +298,12 @@ func (c05) Case(c *core.Ctx) {
 	mxj.XMLEscapeChars(false)
 	mxj.XmlCheckIsValid(true)
 	if r.Intn(4) == 0 {
-		mxj.CustomDecoder = &xml.Decoder{Strict: false}
-		c.Count("ambient:custom-decoder-nonstrict")
+		// a decoder option (incl. extra entities the *decoders* accept) does not change what "well formed" means for the encoders
+		mxj.CustomDecoder = &xml.Decoder{Strict: r.Intn(2) == 0}
+		if r.Intn(2) == 0 {
+			mxj.CustomDecoder.Entity = map[string]string{"nbsp": "\u00a0", "foo": "bar"}
+		}
+		c.Count("ambient:custom-decoder")
 	}
 	for _, e := range append(append([]encT{}, encs...), shapeEncs[:6]...) {
 		out, err := e.f()
